@@ -187,6 +187,7 @@ func runPrograms(args []string) int {
 	conc := fs.Int("conc", 1, "programs executed concurrently")
 	events := fs.String("events", "", "write the FID table event log here (ndjson)")
 	npevents := fs.String("npevents", "", "write the event log of the global named-pipe registry (names a, b, c) here (ndjson)")
+	suevents := fs.String("suevents", "", "write the log of how the interpreter uses its pipes (open/close/append per pipe) here (ndjson)")
 	lcevents := fs.String("lcevents", "", "write the log of the scheduler / process life-cycle gates here (ndjson)")
 	fs.Parse(args)
 	cases, err := readNDJSON[progCase](*in)
@@ -270,6 +271,27 @@ func runPrograms(args []string) int {
 			}
 		}
 	}
+	if *suevents != "" {
+		prev := hooks.Emit
+		hooks.Emit = func(obj any, ev string, s string, n []int64) {
+			suEmit(obj, ev, s, n)
+			if prev != nil {
+				prev(obj, ev, s, n)
+			}
+		}
+		defer func() {
+			time.Sleep(200 * time.Millisecond)
+			w, err := newNDWriter(*suevents)
+			if err == nil {
+				suLog.Lock()
+				for _, e := range suLog.evs {
+					w.Write(e)
+				}
+				suLog.Unlock()
+				w.Close()
+			}
+		}()
+	}
 	if *lcevents != "" {
 		prev := hooks.Gate
 		hooks.Gate = func(obj any, point string) {
@@ -350,9 +372,15 @@ func runPrograms(args []string) int {
 			if *lcevents != "" {
 				lcMark("begin", c.ID)
 			}
+			if *suevents != "" {
+				suMark("begin", c.ID)
+			}
 			r := runOneProgram(c.Src, to, c.Fids)
 			if *lcevents != "" {
 				lcMark("end", c.ID)
+			}
+			if *suevents != "" {
+				suMark("end", c.ID)
 			}
 			res.Runs = append(res.Runs, r)
 			if r.Hung {
